@@ -1,3 +1,49 @@
 import Driver.Loop
-/- placeholder: the C10 view has no executable model yet -/
-def main : IO Unit := Drv.runLoop fun _ => .atom "bad-op"
+import PMV.Model.IndexWire
+import PMV.Model.SetItem
+/- line-protocol handler for the C10 view (item assignment) -/
+namespace Drv.C10
+open PMV PMV.NpIndex PMV.Index PMV.IndexWire PMV.SetItem
+
+def err (msg : String) : Sx := .list [.atom "driver-error", .atom msg]
+
+def renderObj (q : Obj) : Sx :=
+  .list ((indices q.shape).map fun i => if q.mask.bit i then Sx.atom "m" else Sx.ofInt (q.vals i))
+
+def parseStep (t : Nat) : Sx → Option (List Entry × Rhs)
+  | .list [ents, rsh, rm] => do
+    let es ← parseEntries ents
+    let rshape ← rsh.nats?
+    let m ← parseMask rshape rm
+    some (es, ⟨rshape, fun i => Int.ofNat (1000 * (t + 1) + ravel rshape i), m⟩)
+  | _ => none
+
+def runSteps : Obj → List (List Entry × Rhs) → List Sx
+  | _, [] => []
+  | q, a :: as =>
+    match setitem q a.1 a.2 with
+    | .ok q' => renderObj q' :: runSteps q' as
+    | .indexError => .atom "IndexError" :: runSteps q as
+    | .valueError => .atom "ValueError" :: runSteps q as
+
+def handle : List Sx → Sx
+  | [.atom "set", sh, m, steps] =>
+    match sh.nats? with
+    | some shape =>
+      match parseMask shape m, steps.toList? with
+      | some mask, some ss =>
+        match (ss.zipIdx.map fun (s, t) => parseStep t s).mapM id with
+        | some as =>
+          let q : Obj := ⟨shape, fun i => Int.ofNat (ravel shape i + 1), mask⟩
+          .list (renderObj q :: runSteps q as)
+        | none => err "step"
+      | _, _ => err "operand"
+    | none => err "shape"
+  | _ => err "c10-op"
+
+end Drv.C10
+
+def main : IO Unit := Drv.runLoop fun x =>
+  match x with
+  | .list (.atom "c10" :: rest) => Drv.C10.handle rest
+  | _ => .atom "bad-op"
